@@ -365,6 +365,22 @@ func runC19(seed uint64, n int, outDir string, replay string) {
 				}
 				p19Invariants(o, pool, accts, submitted, where)
 			}
+			// a transaction signed for another chain id, its hash (and with it the sender cached under its own chain id)
+			// already computed as the network layer does on receipt: the pool must not take the cached sender for valid
+			{
+				other := new(big.Int).Add(p19ChainID, big.NewInt(1))
+				a := accts[rc.Intn(len(accts))]
+				to := common.HexToAddress("0x0000000000000000000000000000000000000099", common.Location{0, 0})
+				ftx, err := types.SignTx(types.NewTx(&types.QuaiTx{ChainID: other, Nonce: a.nonce, GasPrice: big.NewInt(100), Gas: 21000, To: &to, Value: big.NewInt(1)}), types.NewSigner(other, common.Location{0, 0}), a.key)
+				if err == nil {
+					_ = ftx.Hash(common.Location{0, 0}...)
+					if errs := pool.AddRemotesSync([]*types.Transaction{ftx}); errs[0] == nil {
+						o.Violate("c03-pool-accepts-transaction-of-another-chain", fmt.Sprintf("a transaction signed for chain id %s is accepted by the pool of chain %s", other, p19ChainID))
+					} else {
+						o.Count("other-chain-tx-refused")
+					}
+				}
+			}
 			dropFor := map[int]uint64{}
 			for step, steps := 0, 12+rc.Intn(25); step < steps; step++ {
 				ai := rc.Intn(len(accts))
